@@ -57,10 +57,7 @@ def special(kind, rng):
         order = list(cs)
         rng.shuffle(order)
         sub = tuple(order[:2 + rng.randrange(2)])
-        J = ufl.derivative(F, sub)
-        if rng.random() < 0.5:
-            J = J + ufl.derivative(F, (p, u))
-        return J
+        return ufl.derivative(F, sub)
     if kind == "intersect":
         ms = [ufl.Mesh(P(1, (2,))) for _ in range(3)]
         V0, V1, V2 = (ufl.FunctionSpace(mm, P(1 + n % 2)) for n, mm in enumerate(ms))
